@@ -132,19 +132,28 @@ def facts_path(config, repo=None, want_rlib=False):
     rlib_stamp = os.path.join(d, "rlib_ok")
     with open(os.path.join(d, "lock"), "w") as lk:
         fcntl.flock(lk, fcntl.LOCK_EX)
-        if os.path.exists(stamp) and os.path.exists(fact) and (not want_rlib or os.path.exists(rlib_stamp)):
+        have_fact = os.path.exists(stamp) and os.path.exists(fact)
+        if have_fact and (not want_rlib or os.path.exists(rlib_stamp)):
             os.utime(os.path.join(CACHE, th))
             return fact
-        if os.path.exists(fact):
-            os.remove(fact)
-        for s in (stamp, rlib_stamp):
-            if os.path.exists(s):
-                os.remove(s)
+        out_dir = d
+        if have_fact:
+            # only the rlib is missing: a stamped fact file is immutable (other checks of the same tree may be
+            # reading it right now), so the driver's output of this second build goes to a scratch directory
+            out_dir = os.path.join(d, "rlib-build-facts")
+            shutil.rmtree(out_dir, ignore_errors=True)
+            os.makedirs(out_dir)
+        else:
+            if os.path.exists(fact):
+                os.remove(fact)
+            for s in (stamp, rlib_stamp):
+                if os.path.exists(s):
+                    os.remove(s)
         shutil.rmtree(tdir, ignore_errors=True)
         env = base_env()
         env["RUSTFLAGS"] = "-Zmir-opt-level=0 -Awarnings"
         env["RUSTC_WORKSPACE_WRAPPER"] = DRIVER
-        env["GCV_OUT"] = d
+        env["GCV_OUT"] = out_dir
         env["GCV_CRATES"] = "gc_arena"
         env["CARGO_TARGET_DIR"] = tdir
         sub = "build" if want_rlib else "check"
@@ -155,9 +164,11 @@ def facts_path(config, repo=None, want_rlib=False):
             with open(os.path.join(d, "build.log"), "w") as f:
                 f.write(r.stdout + r.stderr)
             raise BuildError("cargo %s failed for config %s:\n%s" % (sub, config, (r.stdout + r.stderr)[-4000:]))
-        if not os.path.exists(fact):
+        if not os.path.exists(os.path.join(out_dir, "gc_arena.json")):
             raise BuildError("driver did not write a fact file for config %s (cargo output:\n%s)" % (
                 config, (r.stdout + r.stderr)[-2000:]))
+        if out_dir != d:
+            shutil.rmtree(out_dir, ignore_errors=True)
         if want_rlib:
             open(rlib_stamp, "w").write("%f" % (time.time() - t0))
         else:
